@@ -74,8 +74,8 @@ def sweep_cases(ctx):
         for issuer_key in ["P-256", "RSA-1024", "brainpoolP384r1"]:
             ca = cfg("CN=Req CA", keyAlgorithm=issuer_key, signatureAlgorithm=sig_for(issuer_key))
             leaf = cfg("CN=Requester v0", issuer="ca", signatureAlgorithm=sig_for(issuer_key))
-            c = case(len(out) + 1, [("ca.yaml", ca), ("leaf.yaml", leaf)], tag={"prop": "C14", "class": "csr %s under %s" % (k, issuer_key), "firstMustSucceed": True})
-            c["files"].append({"path": "leaf.pem", "make": {"kind": "csr", "key": k, "cn": "Requester"}})
+            c = case(len(out) + 1, [("ca.yaml", ca), ("leaf.yaml", leaf)], tag={"prop": "C14", "class": "csr %s under %s%s" % (k, issuer_key, " (NEW CERTIFICATE REQUEST label)" if (k, issuer_key) == ("P-256", "RSA-1024") else ""), "firstMustSucceed": True})
+            c["files"].append({"path": "leaf.pem", "make": {"kind": "csr", "key": k, "cn": "Requester", "variant": "legacy-label" if (k, issuer_key) == ("P-256", "RSA-1024") else ""}})
             leaf1 = dict(leaf, subject="CN=Requester v1")
             c["steps"] = [{"flags": ["m", "c"]}, {"put": [{"path": "leaf.yaml", "text": json.dumps(leaf1)}], "flags": ["c"]}, {"flags": ["a"]},
                           {"put": [{"path": "leaf.yaml", "text": json.dumps(dict(leaf1, keyAlgorithm="RSA-1024"))}], "flags": ["m", "c"]},
